@@ -139,6 +139,8 @@ public:
       if (origin.empty()) { Rng gr = r.fork(5); text = wantX ? gen::makeX(gr) : gen::makeAsm(gr); origin = "gen"; }
     }
     if (r.chance(2, 5)) { Rng mr = r.fork(6); text = gen::mutateSource(mr, text, wantX, 2); origin += "+mut"; }
+    // Now and then a big program (an image of up to 190 000 words; a few hundred kB of string constants).
+    if (r.chance(1, 2000)) { Rng gr = r.fork(7); text = wantX ? gen::makeBigX(gr) : gen::makeBigAsm(gr); origin = wantX ? "bigx" : "bigasm"; inputs.clear(); }
     std::string srcName = wantX ? (r.chance(1, 4) ? "prog" : "prog.x") : "prog.S";
     bool missingInput = r.chance(1, 25);
     if (!missingInput) { Json f = Json::object(); f["op"] = "file"; f["path"] = srcName; f["src"] = text; f["role"] = "source"; f["origin"] = origin; ops.push(f); }
